@@ -103,9 +103,31 @@ Qed.
    holds 2 1/2 samples when the reader asks for everything, then grows ---- *)
 Definition dz_c1 : content := [1; 0; 2; 0; 3]%N.
 Definition dz_c2 : content := [1; 0; 2; 0; 3; 0; 4; 0]%N.
-Definition dz_r1 := rd_read 2 dz_c1 (mkrd 0 0) 0 10.
-Definition dz_r2 := rd_read 2 dz_c2 (snd dz_r1) 2 10.
+Definition dz_r1 := rd_read false 2 dz_c1 (mkrd 0 0) 0 10.
+Definition dz_r2 := rd_read false 2 dz_c2 (snd dz_r1) 2 10.
 
 Lemma desync_witness :
   fst dz_r1 = [1; 0; 2; 0]%N /\ fst dz_r2 <> firstn 4 (skipn 4 dz_c2) /\ fst dz_r2 = [0; 4]%N.
 Proof. vm_compute. repeat split; discriminate || reflexivity. Qed.
+
+(* ---- with the step back over a partial sample the handle stays aligned and
+   every read returns exactly the bytes of whole samples from s0 on ---- *)
+Lemma rd_read_fixed : forall sz c r s0 n, sz <> 0 -> aligned sz r ->
+  let res := rd_read true sz c r s0 n in
+  fst res = firstn (length (fst res)) (skipn (s0 * sz) c) /\
+  aligned sz (snd res) /\
+  rpos (snd res) * sz = s0 * sz + length (fst res) /\
+  (exists k, length (fst res) = k * sz).
+Proof.
+  intros sz c r s0 n Hz A. unfold rd_read. simpl.
+  assert (O : (if rpos r =? s0 then roff r else s0 * sz) = s0 * sz).
+  { destruct (Nat.eqb_spec (rpos r) s0); auto. unfold aligned in A. congruence. }
+  rewrite O. set (g := firstn (n * sz) (skipn (s0 * sz) c)). set (w := length g / sz).
+  assert (Lw : w * sz <= length g). { unfold w. rewrite Nat.mul_comm. apply Nat.mul_div_le; auto. }
+  assert (L : length (firstn (w * sz) g) = w * sz) by (rewrite firstn_length; lia).
+  rewrite L. repeat split.
+  - unfold g at 1. rewrite firstn_firstn. f_equal. unfold g in Lw. rewrite firstn_length in Lw. lia.
+  - unfold aligned; simpl. lia.
+  - lia.
+  - exists w; auto.
+Qed.
